@@ -137,6 +137,14 @@ func buildHarness(dir string, needInst, needRace bool) (*builds, error) {
 				b.notes = append(b.notes, strings.TrimSpace(strings.TrimPrefix(l, "NOTE:")))
 			}
 		}
+		// the instrumentation must preserve behaviour: the repository's own
+		// tests run against the instrumented sources with no explorer attached
+		tenv := append(os.Environ(), "GOPROXY=off", "GOSUMDB=off", "GOTOOLCHAIN=local", "GOFLAGS=")
+		if out, err := runCmd("/repo", tenv, "timeout", "600", "go", "test", "-vet=off", "-count=1", "-overlay", filepath.Join(ov, "overlay.json"), "."); err != nil {
+			b.notes = append(b.notes, "instrumentation: the repository's tests do not pass against the instrumented build (results of the instrumented engines are to be read with that in mind): "+trunc(out, 300))
+		} else {
+			b.notes = append(b.notes, "the repository's own tests pass against the instrumented build (explorer detached)")
+		}
 		b.inst = filepath.Join(dir, "vh-inst")
 		if out, err := runCmd(mcDir, goEnv(), "go", "build", "-tags", "verifinst", "-overlay", filepath.Join(ov, "overlay.json"), "-o", b.inst, "./cmd/vh"); err != nil {
 			return nil, fmt.Errorf("building instrumented harness failed:\n%s", out)
